@@ -7,6 +7,7 @@ import (
 	"os"
 	"path/filepath"
 	"strings"
+	"time"
 )
 
 func init() { gens["C01"] = genC01 }
@@ -60,6 +61,12 @@ func genC01(c *Ctx) {
 	add("corpus:jks-short", "k.jks", []byte{0xfe, 0xed, 0xfe, 0xed})
 	add("corpus:jwt-null", "t", []byte("bnVsbA.bnVsbA."))
 	add("corpus:uuid-braces", "u", []byte("x1EC9414C-232A-6B00-B3C8-9E6BDECED846y"))
+	c01Corpus(add)
+	// known finding C01-jceks-nesting: 5000 class descriptions nested in class annotations (75 kB) make the
+	// third-party Java deserializer build error texts of quadratic total size (gigabytes; 10000 levels: 17 GiB and
+	// 14 s); run in the isolated worker only, whose watchdog ends it, never through the CLI
+	noCLI := map[int]bool{len(cases): true}
+	add("corpus:jceks-nesting:java", "k.jceks", c01JCE(c01JavaNest(5000)))
 
 	// deep nesting: recursion depth must be bounded for every wrapping construct (a goroutine stack
 	// overflow is a fatal error, not a recoverable panic): 2.5 million levels, 10-15 MB each
@@ -165,7 +172,19 @@ func genC01(c *Ctx) {
 		}
 		_ = si
 	}
-	res := runIsolated(c, cases)
+	// structured, mostly-valid instances of every format with one field at a time set to the values a parser
+	// could mishandle (own random stream: the mutation stream above does not depend on it)
+	nMut := len(cases)
+	c01Structured(c, NewRng(c.Seed*0x9E3779B97F4A7C15+0xC01), seeds, add)
+	// the cases are written to files one by one (worker and CLI): a memory-backed scratch directory when there is one
+	fast := *c
+	if d, err := os.MkdirTemp("/dev/shm", "verif-c01-"); err == nil {
+		fast.Tmp = d
+		defer os.RemoveAll(d)
+	}
+	t0 := time.Now()
+	res := c01RunIsolatedParallel(&fast, cases, 4)
+	fmt.Fprintf(os.Stderr, "c01: %d cases (%d structured) through the isolated worker in %.1fs\n", len(cases), len(cases)-nMut, time.Since(t0).Seconds())
 	for i, r := range res {
 		code := map[string]int{"ok": 0, "panic": 2, "fatal": 3, "timeout": 4, "oom": 5}[r.Outcome]
 		detail := r.Detail
@@ -184,16 +203,31 @@ func genC01(c *Ctx) {
 	}
 	dir := filepath.Join(c.Tmp, "c01cli")
 	os.MkdirAll(dir, 0o755)
-	for k := 0; k < ncli && k < len(cases); k++ {
-		idx := (k * 7919) % len(cases)
+	for k := 0; k < ncli && k < nMut; k++ {
+		idx := (k * 7919) % nMut
+		if noCLI[idx] {
+			continue
+		}
 		p := filepath.Join(dir, fmt.Sprintf("f%d", k))
 		os.WriteFile(p, cases[idx].Data, 0o644)
 		out, code := runCLI(c, p)
 		hasPrefix := strings.HasPrefix(string(out), p+": ")
-		c.Emit("cli:"+kinds[idx], SL{S(p), SB(cases[idx].Data)}, SL{I(code), Bool(hasPrefix), Bool(len(out) > 0 && out[len(out)-1] == '\n')})
+		c.Emit("cli:"+kinds[idx], SL{S(p), SB(cases[idx].Data)}, SL{I(code), Bool(hasPrefix), Bool(len(out) > 0 && out[len(out)-1] == '\n'), I(len(c01TopLines(out)))})
 		os.Remove(p)
 	}
 	os.RemoveAll(dir)
+	// the structured cases: all of them through the real CLI under their own names, many files per invocation
+	t0 = time.Now()
+	for i, o := range c01CLIBatchesParallel(&fast, cases[nMut:], 250, 4) {
+		// the data is that of the inspect case emitted above for the same input (its number is nMut+i+1 in this
+		// run); it is repeated here only when the observation is not the expected one, for the replay file
+		var data Sx = SL{S("same-data-as-inspect-case"), I(nMut + i + 1)}
+		if o.code != 0 || !o.prefix || !o.newline || o.reports != 1 {
+			data = SB(cases[nMut+i].Data)
+		}
+		c.Emit("cli:"+kinds[nMut+i], SL{S(strings.TrimPrefix(o.path, fast.Tmp+"/")), data}, SL{I(o.code), Bool(o.prefix), Bool(o.newline), I(o.reports)})
+	}
+	fmt.Fprintf(os.Stderr, "c01: %d structured cases through the command-line tool in %.1fs\n", len(cases)-nMut, time.Since(t0).Seconds())
 }
 
 // nestDER wraps NULL in n levels of the given identifier octet with definite DER lengths
